@@ -40,6 +40,7 @@ type PropSpec struct {
 	Stubs     []string
 	Assume    []string
 	CLI       bool // harness lives in package main of cmd/pql (overlay)
+	Threads   bool // uses verif.Par: schedules re-explored when new written locations appear; -race replays
 }
 
 type ReplayFile struct {
@@ -111,6 +112,11 @@ func runNativeFile(bin, path string, timeout time.Duration) nativeResult {
 		res.Outcome = "hang"
 		return res
 	}
+	if strings.Contains(res.Out, "WARNING: DATA RACE") {
+		res.Outcome = "race"
+		res.Msg = "race detector: DATA RACE"
+		return res
+	}
 	code := 0
 	if err != nil {
 		if ee, ok := err.(*exec.ExitError); ok {
@@ -154,11 +160,16 @@ func goEnv() []string {
 }
 
 // buildReplay compiles the native replay command against the current tree of the repository.
-func buildReplay(harnessDir, outDir string) (string, error) {
+func buildReplay(harnessDir, outDir string, race bool) (string, error) {
 	bin := filepath.Join(outDir, fmt.Sprintf("replay-%d", os.Getpid()))
 	cmd := exec.Command("go", "build", "-o", bin, "./cmd/replay")
-	cmd.Dir = harnessDir
 	cmd.Env = goEnv()
+	if race {
+		// concurrency checks replay under the race detector (needs cgo)
+		cmd = exec.Command("go", "build", "-race", "-o", bin, "./cmd/replay")
+		cmd.Env = append(goEnv(), "CGO_ENABLED=1")
+	}
+	cmd.Dir = harnessDir
 	out, err := cmd.CombinedOutput()
 	if err != nil {
 		return "", fmt.Errorf("go build replay: %v\n%s", err, out)
@@ -297,7 +308,7 @@ func cmdCheck(argv []string) int {
 	if spec.CLI {
 		replayBin, err = buildCLIReplay(repoDir, cliOverlayPath, cliSrc, buildDir)
 	} else {
-		replayBin, err = buildReplay(harnessDir, buildDir)
+		replayBin, err = buildReplay(harnessDir, buildDir, spec.Threads)
 	}
 	if err != nil {
 		return broken("%v", err)
@@ -345,6 +356,19 @@ func cmdCheck(argv []string) int {
 		}
 		h := &HarnessRun{Name: rs.Harness, Fn: fn, Args: rs.Args, Budget: budget, SampleK: 97, MaxPaths: rs.MaxPaths}
 		st := e.explore(h, *workers)
+		for round := 0; round < 6; round++ {
+			// a shared location was seen written for the first time: accesses to it are
+			// visible operations from now on, so the schedules must be explored again
+			e.wmu.Lock()
+			grew := e.writtenGrew
+			e.writtenGrew = false
+			e.wmu.Unlock()
+			if !grew || !spec.Threads {
+				break
+			}
+			h = &HarnessRun{Name: rs.Harness, Fn: fn, Args: rs.Args, Budget: budget, SampleK: 97, MaxPaths: rs.MaxPaths}
+			st = e.explore(h, *workers)
+		}
 		inconclusive += h.inconclusive
 		total.Paths += st.Paths
 		total.Decisions += st.Decisions
@@ -417,12 +441,12 @@ func cmdCheck(argv []string) int {
 	replays := 0
 	classCount := map[string]int{}
 	for _, v := range allViol {
-		key := violationKey(v)
+		rs := violRun[v]
+		key := violationKey(v) + "|" + rs.Harness + fmt.Sprint(rs.Args)
 		if seen[key] {
 			continue
 		}
 		seen[key] = true
-		rs := violRun[v]
 		if (v.Kind == "panic" || v.Kind == "hang") && !spec.OwnsPanic {
 			aborted = append(aborted, fmt.Sprintf("%s in %s on %s (owned by C12)", v.Kind, v.Where, showInputs(v.Inputs)))
 			continue
@@ -451,6 +475,13 @@ func cmdCheck(argv []string) int {
 		switch v.Kind {
 		case "assert":
 			reproduced = nr.Outcome == "assert" && nr.Msg == v.Msg
+			if strings.HasPrefix(v.Msg, "data race") {
+				// natively the schedule is the Go scheduler's: the race detector confirms (several attempts)
+				for try := 0; try < 5 && nr.Outcome != "race"; try++ {
+					nr = runNative(replayBin, rf, buildDir, timeout)
+				}
+				reproduced = nr.Outcome == "race"
+			}
 		case "panic":
 			reproduced = nr.Outcome == "panic"
 		case "hang":
@@ -641,7 +672,7 @@ func cmdReplay(argv []string) int {
 	if b, err := os.ReadFile(filepath.Join(envOr("VERIF_REPO", "/repo"), "go.sum")); err == nil {
 		os.WriteFile(filepath.Join(verifDir, "harness", "go.sum"), b, 0o644)
 	}
-	bin, err := buildReplay(filepath.Join(verifDir, "harness"), buildDir)
+	bin, err := buildReplay(filepath.Join(verifDir, "harness"), buildDir, strings.Contains(argv[0], "C14"))
 	if err != nil {
 		fmt.Println("BROKEN:", err)
 		return 2
@@ -663,7 +694,7 @@ func cmdReplay(argv []string) int {
 	switch nr.Outcome {
 	case "passed", "assume":
 		return 0
-	case "assert", "panic", "hang":
+	case "assert", "panic", "hang", "race":
 		fmt.Printf("VIOLATION property=%s replay=%s\n", rf.Property, argv[0])
 		return 1
 	}
